@@ -6,7 +6,8 @@ Rec == ndJsonDeserialize(IOEnv.TRACE)
 VARIABLE l
 IsEvent(e) == l <= Len(Rec) /\ Rec[l].ev = e /\ l' = l + 1
 TInit == Init /\ l = 1
-TNext == \/ IsEvent("CCall")      /\ CCall(Rec[l].f, Rec[l].v, "mr" \in DOMAIN Rec[l])
+CbsOf(r) == IF "cbs" \in DOMAIN r THEN {r.cbs[i] : i \in 1..Len(r.cbs)} ELSE {}
+TNext == \/ IsEvent("CCall")      /\ CCallCb(Rec[l].f, Rec[l].v, "mr" \in DOMAIN Rec[l], CbsOf(Rec[l]))
          \/ IsEvent("RustEnter")  /\ Enter(Rec[l].f, Rec[l].v)
          \/ IsEvent("RustReturn") /\ Return(Rec[l].f, Rec[l].v)
          \/ IsEvent("CReturn")    /\ CReturn(Rec[l].f, Rec[l].v)
@@ -14,7 +15,8 @@ TNext == \/ IsEvent("CCall")      /\ CCall(Rec[l].f, Rec[l].v, "mr" \in DOMAIN R
          \/ (IsEvent("CReturn") /\ stack # <<>> /\ ~rejected /\ Rec[l].v = "err(utf8)"
                /\ (IF stack = <<>> THEN FALSE ELSE (Top.phase = "called" /\ Top.mr /\ Top.f = Rec[l].f))
                /\ Pop /\ UNCHANGED <<rejected, entered>>)
-         \/ IsEvent("CbInvoke")   /\ CCall(Rec[l].f, Rec[l].v, FALSE)
+         \/ IsEvent("CbInvoke")   /\ CbCall(Rec[l].f, Rec[l].v)
+         \/ IsEvent("CbDrop")     /\ CbDrop(Rec[l].f)
          \/ IsEvent("CbEnter")    /\ Enter(Rec[l].f, Rec[l].v)
          \/ IsEvent("CbReturn")   /\ Return(Rec[l].f, Rec[l].v)
          \/ IsEvent("CbResult")   /\ CReturn(Rec[l].f, Rec[l].v)
